@@ -144,6 +144,9 @@ func nativeReplay(path string) (bool, string) {
 	if rf.Kind == "race" {
 		cmd.Env = append(cmd.Env, "VERIF_RACE=1")
 	}
+	if harnessDirective(rf.Property, rf.PkgRel, rf.Harness, "//verif:replay free") {
+		cmd.Env = append(cmd.Env, "VERIF_FREE=1")
+	}
 	outB, runErr := cmd.CombinedOutput()
 	out := string(outB)
 	failed := runErr != nil
@@ -219,6 +222,11 @@ func assertMsg(site string) string {
 
 // anyAssert reports whether the harness carries the directive //verif:replay anyassert.
 func anyAssert(prop, pkgRel, harness string) bool {
+	return harnessDirective(prop, pkgRel, harness, "//verif:replay anyassert")
+}
+
+// harnessDirective reports whether the doc comment of the harness contains the given directive line.
+func harnessDirective(prop, pkgRel, harness, directive string) bool {
 	for _, f := range harnessFilesFor(prop)[pkgRel] {
 		b, err := os.ReadFile(f)
 		if err != nil {
@@ -233,7 +241,7 @@ func anyAssert(prop, pkgRel, harness string) bool {
 		if j < 0 {
 			j = 0
 		}
-		return strings.Contains(src[j:i], "//verif:replay anyassert")
+		return strings.Contains(src[j:i], directive)
 	}
 	return false
 }
@@ -319,7 +327,7 @@ func firstN(s string, n int) string {
 // divergence of the input stream or a stuck schedule.
 func nativePass(path string) (bool, string) {
 	_, out := nativeReplay(path)
-	if strings.Contains(out, "VERIF-SCHED-DIVERGED") {
+	if strings.Contains(out, "VERIF-SCHED-DIVERGED") || strings.Contains(out, "VERIF-SCHED-INCOMPLETE") {
 		// goroutines running in other packages are not gated natively, so the recorded schedule could not be imposed:
 		// nothing was compared (reported as unvalidated, not as a disagreement)
 		return true, "UNVALIDATED " + out
